@@ -32,7 +32,7 @@ META = {
 }
 
 COQ_FILES = ["C10/GenAlloc.v", "C10/Layout.v", "C10/Alloc.v", "C10/Paths.v", "C10/AllocProofs.v",
-             "C10/OverrideProofs.v", "C10/AddrTemplates.v", "C10/PropsC10.v"]
+             "C10/OverrideProofs.v", "C10/AddrTemplates.v", "C10/VAddrTemplates.v", "C10/PropsC10.v"]
 IMPORTS = "From Verif Require Import Base.PyInt C10.GenAlloc C10.Layout C10.Alloc.\nOpen Scope string_scope.\nOpen Scope Z_scope.\n"
 TWO256 = 2**256
 MAXES = {"storage": 2**256, "transient": 2**256, "code": 0x6000}
@@ -578,7 +578,7 @@ def run(ctx):
         gen_err = f"{type(e).__name__}: {e}"
     b = {"ok": False, "file": "C10/GenAlloc.v", "failed_lemma": None, "out": gen_err or ""}
     # C03/LIR.v (owned by the C03 worker, static) is needed by AddrTemplates.v; never force-rebuild someone else's file
-    coqrun.build_sequence(["C03/LIR.v"], force=False)
+    coqrun.build_sequence(["C03/LIR.v", "C03/VSL.v", "C04/Checks.v"], force=False)
     if gen_err is None:
         b = ctx.coq_build(COQ_FILES)
     # the executable model is usable if the model files compiled (a proof file may have failed)
